@@ -132,7 +132,7 @@ def refresh(name):
 def run(name, props, tier):
     d = os.path.join(SEEDED, name)
     meta = json.load(open(os.path.join(d, "meta.json")))
-    props = props or [meta["property"]]
+    props = props or meta.get("run_checks") or [meta["property"]]
     wt = mkwt("run-" + name)
     res = {}
     try:
